@@ -52,6 +52,10 @@ void check_field(Complex& cpx, const std::string& cfg, long ci, const bj::object
   bool flag = ex.at("flag").as_bool();
   bj::object params{{"op", "persistence"}, {"p", p}, {"minlen", minlen}, {"flag", flag}};
   pc::Persistent_cohomology<Complex, pc::Field_Zp> pcoh(cpx, flag);
+  // the coefficient field of an engine object may be initialised again before the computation: every second case first
+  // initialises another prime, every fourth first asks for a composite (refused with an exception)
+  if (ci % 2 == 1) pcoh.init_coefficients(p == 2 ? 3 : 2);
+  if (ci % 4 == 2) { try { pcoh.init_coefficients(4); dev.report(cfg, ci, params, "init_coefficients(4) refused", true, false); } catch (const std::exception&) {} }
   pcoh.init_coefficients(p);
   pcoh.compute_persistent_cohomology(minlen);
   dev.evals++;
